@@ -36,6 +36,23 @@ def mentions_set(test):
     return None
 
 
+def set_arms(node):
+    """the arms of the ``if`` a set typed value can reach: the body for ``isinstance(x, (set, frozenset))``, the else arm for
+    its negation, both when the test combines it with other conditions"""
+    def polarity(t, neg):
+        if isinstance(t, ast.UnaryOp) and isinstance(t.op, ast.Not):
+            return polarity(t.operand, not neg)
+        if isinstance(t, ast.Call) and mentions_set(t) is not None:
+            return 'neg' if neg else 'pos'
+        return None
+    p = polarity(node.test, False)
+    if p == 'pos':
+        return [node.body]
+    if p == 'neg':
+        return [node.orelse]
+    return [node.body, node.orelse]
+
+
 def iterations_over(stmts, var):
     """(node, sorted?) for every for-loop / comprehension / enumerate() over ``var`` in the statements"""
     out = []
@@ -157,7 +174,7 @@ def check(ctx, report):
             if var is None:
                 continue
             report.count('C14.R1')
-            body = n.body
+            body = [st for arm in set_arms(n) for st in arm]
             for it, is_sorted in iterations_over(body, var):
                 if not is_sorted:
                     report.add('C14.R1', '%s@iterate[%s]' % (f.construct, var),
